@@ -671,3 +671,6 @@ def run(ck):
     reevaluate(ck, 'C06.i', 'c17', lambda r, k: (r in ('C17.a', 'C17.b', 'C17.c', 'C17.d') and k.startswith(('sink_put_chunk', 'source_get_chunk', 'sink_adapt', 'source_adapt'))) or
                (r == 'C17.f' and k.startswith(('sts_n', 'sts_atmost'))),
                'requests arrive and responses leave through the exact transfer calls: every octet of a response is offered to the sink until it is taken, a retry signal drops or repeats none')
+    ck.rule('C06.k', 'a valid request is RECEIVED as one: acceptance of a frame depends on the checksums it declares and on nothing the frame memory held before (C07.a gating re-evaluated) - a request without the optional header checksum is not refused because a recycled block still holds an earlier frame\'s checksum field')
+    reevaluate(ck, 'C06.k', 'c07', lambda r, k: r == 'C07.a',
+               'exactly-once execution starts with reception: the gating of the checksum comparisons decides which valid requests reach regp_process')
